@@ -158,6 +158,7 @@ func WorkerMain(t *testing.T, eng Engine) {
 	budget := time.Duration(job.BudgetSec * float64(time.Second))
 	lastFlush := time.Now()
 	seenClass := map[string]bool{}
+	spent := map[string]time.Duration{}
 	for i := 0; job.MaxRuns <= 0 || i < job.MaxRuns; i++ {
 		if budget > 0 && time.Since(start) > budget {
 			break
@@ -170,7 +171,21 @@ func WorkerMain(t *testing.T, eng Engine) {
 			}
 			seed = job.ExactSeed
 		}
+		// Scenarios share the worker's time, not its run count (a cheap
+		// enumeration and an expensive real-disk session would otherwise get
+		// the same number of runs and the cheap one almost no time): the next
+		// run goes to the scenario that has used the least wall time so far.
 		sc := scen[idx%len(scen)]
+		if len(scen) > 1 && i >= len(scen) {
+			best := -1
+			for k, name := range scen {
+				if best < 0 || spent[name] < spent[scen[best]] {
+					best = k
+				}
+			}
+			sc = scen[best]
+		}
+		runStart := time.Now()
 		plan := eng.Generate(job.Property, sc, seed, job.Tier)
 		out.InProgress, out.InProgressScenario = seed, sc
 		if time.Since(lastFlush) > 2*time.Second || i == 0 {
@@ -179,6 +194,7 @@ func WorkerMain(t *testing.T, eng Engine) {
 		}
 		WriteJSON(job.Out+".inprogress", plan)
 		res := eng.Execute(t, plan)
+		spent[sc] += time.Since(runStart)
 		out.Runs++
 		out.PerScenario[sc]++
 		out.SimSeconds += float64(res.SimNanos) / 1e9
